@@ -33,6 +33,10 @@ type Evaluator struct {
 	Dev Deviations
 	// group is set while a projection with aggregation evaluates one group.
 	group []Env
+	// inWhere is set while a WHERE predicate is evaluated.
+	inWhere bool
+	// carried: the bindings the translator keeps between frames (only used by a deviation switch).
+	carried map[string]bool
 	// adjacency
 	out, in map[int64][]*gm.Edge
 	nodes   map[int64]*gm.Node
@@ -52,6 +56,38 @@ type Deviations struct {
 	// OrderingCoercesProperty: in <, <=, >, >= a property operand is read as text (jsonb ->>) and cast to the type of
 	// the other operand, so a numeric-looking string compares as a number and a number compares as its text.
 	OrderingCoercesProperty bool
+	// NoRelUniquenessAcrossPatternParts: relationship isomorphism is not enforced between the comma-separated pattern
+	// parts of one MATCH clause.
+	NoRelUniquenessAcrossPatternParts bool
+	// NoRelUniquenessBetweenExpansions: a variable-length step may re-use relationships bound by another
+	// variable-length step of the same pattern.
+	NoRelUniquenessBetweenExpansions bool
+	// WherePredicateCoalescesNullString: in a WHERE clause, STARTS WITH / ENDS WITH / CONTAINS read a missing property
+	// as the empty string (coalesce(.., '')).
+	WherePredicateCoalescesNullString bool
+	// QuantifierOverNullListIsFalse: any / none / single over a null list yield false instead of null.
+	QuantifierOverNullListIsFalse bool
+	// ExpansionStopsAfterSelfLoopAtEnd: the same defect as ExpansionStopsAfterInitialSelfLoop when the translator
+	// drives the expansion from the pattern's right end: a path whose last relationship is a self loop has no longer
+	// version.
+	ExpansionStopsAfterSelfLoopAtEnd bool
+	// UndirectedContinuationReturnsBothEndpoints: an undirected fixed step that is not the first step of its pattern
+	// binds its far node to either endpoint of the relationship (the near node included).
+	UndirectedContinuationReturnsBothEndpoints bool
+	// RepeatedVariableUndirectedIgnoresFarEnd: (n)--(n) yields every endpoint of every relationship.
+	RepeatedVariableUndirectedIgnoresFarEnd bool
+	// OptionalMatchMultipliesDuplicateRows: OPTIONAL MATCH is a left join on the carried bindings, so k identical
+	// incoming rows each receive the matches of all k of them.
+	OptionalMatchMultipliesDuplicateRows bool
+	// OptionalMatchJoinsOnAllBindings selects the join key of the above: every binding in scope instead of only the
+	// bindings that are referenced again (projection pruning keeps expansion endpoints).
+	OptionalMatchJoinsOnAllBindings bool
+	// ExactRangeRepeatedVariableCrossJoinsNodes: (n)-[*k..k]->(n) joins the node table without a condition, so every
+	// match appears once per node of the graph.
+	ExactRangeRepeatedVariableCrossJoinsNodes bool
+	// ArithmeticAndSumCoerceProperty: a property operand of + - * / % and the argument of sum()/avg() are read as text
+	// and cast to a number.
+	ArithmeticAndSumCoerceProperty bool
 }
 
 func New(g *gm.Graph, params map[string]any) *Evaluator {
@@ -238,7 +274,11 @@ func (e *Evaluator) Eval(x cypher.Expression, env Env) (any, error) {
 	case *cypher.ExclusiveDisjunction:
 		return e.logic(t.Expressions, env, triFalse, triXor)
 	case *cypher.Where:
-		return e.logic(t.Expressions, env, triTrue, triAnd)
+		saved := e.inWhere
+		e.inWhere = true
+		v, err := e.logic(t.Expressions, env, triTrue, triAnd)
+		e.inWhere = saved
+		return v, err
 	case *cypher.Comparison:
 		return e.comparison(t, env)
 	case *cypher.ArithmeticExpression:
@@ -270,7 +310,7 @@ func (e *Evaluator) Eval(x cypher.Expression, env Env) (any, error) {
 		return e.quantifier(t, env)
 	case *cypher.PatternPredicate:
 		found := false
-		err := e.matchElements(t.PatternElements, env, map[int64]bool{}, func(Env, gm.Path) bool { found = true; return false })
+		err := e.matchElements(t.PatternElements, env, map[int64]int{}, func(Env, gm.Path) bool { found = true; return false })
 		return found, err
 	case *cypher.ProjectionItem:
 		return e.Eval(t.Expression, env)
@@ -459,6 +499,9 @@ func (e *Evaluator) compareOp(op cypher.Operator, l, r any) (tri, error) {
 		}
 		return triNull, unknown("IS NOT with a non-null right side")
 	case cypher.OperatorStartsWith, cypher.OperatorEndsWith, cypher.OperatorContains:
+		if l == nil && r != nil && e.inWhere && e.Dev.WherePredicateCoalescesNullString {
+			l = ""
+		}
 		if l == nil || r == nil {
 			return triNull, nil
 		}
@@ -507,11 +550,18 @@ func (e *Evaluator) arithmetic(a *cypher.ArithmeticExpression, env Env) (any, er
 	if err != nil {
 		return nil, err
 	}
+	accExpr := a.Left
 	for _, p := range a.Partials {
 		r, err := e.Eval(p.Right, env)
 		if err != nil {
 			return nil, err
 		}
+		if e.Dev.ArithmeticAndSumCoerceProperty {
+			if acc, r, err = coerceOrdering(accExpr, p.Right, acc, r); err != nil {
+				return nil, err
+			}
+		}
+		accExpr = nil
 		acc, err = arith(p.Operator, acc, r)
 		if err != nil {
 			return nil, err
@@ -599,6 +649,9 @@ func (e *Evaluator) quantifier(q *cypher.Quantifier, env Env) (any, error) {
 		return nil, err
 	}
 	if listV == nil {
+		if e.Dev.QuantifierOverNullListIsFalse && q.Type != cypher.QuantifierTypeAll {
+			return false, nil
+		}
 		return nil, nil
 	}
 	list, ok := listV.([]any)
@@ -968,6 +1021,24 @@ func (e *Evaluator) aggregate(name string, f *cypher.FunctionInvocation) (any, e
 		if v == nil {
 			continue
 		}
+		if e.Dev.ArithmeticAndSumCoerceProperty && (name == "sum" || name == "avg") {
+			if _, isProp := f.Arguments[0].(*cypher.PropertyLookup); isProp {
+				switch t := v.(type) {
+				case string:
+					fl, perr := strconv.ParseFloat(strings.TrimSpace(t), 64)
+					if perr != nil {
+						return nil, ErrRuntime{"invalid input syntax for type double precision"}
+					}
+					if fl == float64(int64(fl)) {
+						v = int64(fl)
+					} else {
+						v = fl
+					}
+				case bool:
+					return nil, ErrRuntime{"invalid input syntax for type double precision"}
+				}
+			}
+		}
 		if f.Distinct {
 			k := gm.Canon(v)
 			if seen[k] {
@@ -1024,7 +1095,7 @@ func (e *Evaluator) aggregate(name string, f *cypher.FunctionInvocation) (any, e
 		if len(vals) == 0 {
 			return nil, nil
 		}
-		if mixedOrderTypes(vals) {
+		if mixedOrderTypes(vals) && !onlyStringsAndNumbers(vals) {
 			return nil, unknown("min/max over values of different types")
 		}
 		best := vals[0]
@@ -1037,4 +1108,17 @@ func (e *Evaluator) aggregate(name string, f *cypher.FunctionInvocation) (any, e
 		return best, nil
 	}
 	return nil, unknown("aggregate %s", name)
+}
+
+// onlyStringsAndNumbers: openCypher's orderability (STRING < BOOLEAN < NUMBER) and PostgreSQL's jsonb order
+// (String < Number < Boolean) agree on strings versus numbers.
+func onlyStringsAndNumbers(vals []any) bool {
+	for _, v := range vals {
+		switch v.(type) {
+		case string, int64, float64:
+		default:
+			return false
+		}
+	}
+	return true
 }
